@@ -210,7 +210,7 @@ def manifest():
             'enable': 'checks export GEOPHIRES_X_VERIF=1 (bin/check) and import /repo/src directly; no build step',
             'baseline_off_cmd': BASELINE,
             'source_commits': ['b900803'],
-            'fix_commits': ['83ef652', '14ba6d3', '02fd4ac', 'a169dc6', '7ac55fd', '7b44272', 'e599a4c', 'a02ed85', 'dc24d41', '1888e79', 'e755f4f', '35db34e', '2cdc23f', '89d9dc6', '3882b25', 'c1370a5', '71b806f', 'bbc1fd9'],
+            'fix_commits': ['83ef652', '14ba6d3', '02fd4ac', 'a169dc6', '7ac55fd', '7b44272', 'e599a4c', 'a02ed85', 'dc24d41', '1888e79', 'e755f4f', '35db34e', '2cdc23f', '89d9dc6', '3882b25', 'c1370a5', '71b806f', 'bbc1fd9', '7a63328', '7110d1b'],
             'add_only': True,
         },
         'engines': [
